@@ -28,6 +28,7 @@ vars == <<pick, scen, st, p, i, rxMode, done, lastBranch>>
 Picks ==
   CASE Family = "flow"  -> FlowPicks(N, Phases, MaxChain, Engines, Slice, Slices)
     [] Family = "markers" -> MarkerPicks(N, Phases, Slice, Slices)
+    [] Family = "modes"   -> ModePicks(N, Engines, Slice, Slices)
     [] Family = "select"  -> SelectPicks(N, Phases, Slice, Slices)
     [] Family = "operate" -> OperatePicks(N, Phases, Slice, Slices)
     [] Family = "chain"   -> ChainPicks(N, MaxChain, Phases, Slice, Slices)
@@ -38,6 +39,7 @@ Picks ==
 ScenOf(pk) ==
   CASE Family = "flow"    -> FlowScen(pk)
     [] Family = "markers" -> MarkerScen(pk)
+    [] Family = "modes"   -> ModeScen(pk)
     [] Family = "select"  -> SelectScen(pk)
     [] Family = "operate" -> OperateScen(pk)
     [] Family = "chain"   -> ChainScen(pk)
@@ -69,7 +71,7 @@ Init ==
   /\ lastBranch = "init"
 
 \* families whose requests never hold two data under one variable need no order exploration
-Orders == IF Family \in {"flow", "markers"} THEN {[k \in 1..Len(scen.req) |-> k]} ELSE Permutations(1..Len(scen.req))
+Orders == IF Family \in {"flow", "markers", "modes"} THEN {[k \in 1..Len(scen.req) |-> k]} ELSE Permutations(1..Len(scen.req))
 \* scen is a function of pick: leave it out of the fingerprint
 View == <<pick, st, p, i, rxMode, done>>
 
@@ -85,7 +87,7 @@ NextIdx(j, ph) ==
 \* One iteration of the rule loop
 Step ==
   /\ ~done
-  /\ st.engine # "Off"
+  /\ (st.engine # "Off" \/ i > 1)      \* a phase is not entered with the engine off; switched off by ctl in the middle of a phase, the loop goes on (as RunPhase does)
   /\ ~(st.intr # None /\ p # 5)
   /\ LET j == NextIdx(i, p) IN
      /\ j <= Len(Rules)
@@ -99,12 +101,12 @@ Step ==
 \* End of the rule loop of phase p (also taken at once when the phase is not entered)
 PhaseEnd ==
   /\ ~done
-  /\ \/ st.engine = "Off"
+  /\ \/ (st.engine = "Off" /\ i = 1)
      \/ (st.intr # None /\ p # 5)
      \/ NextIdx(i, p) > Len(Rules)
   \* a phase that is not entered (engine off, or interrupted before its first rule) changes nothing;
   \* a phase that was entered ends with the resets even when it is left through the interruption break
-  /\ st' = IF st.engine = "Off" \/ (st.intr # None /\ p # 5 /\ i = 1) THEN st ELSE EndPhase(st, p)
+  /\ st' = IF (st.engine = "Off" /\ i = 1) \/ (st.intr # None /\ p # 5 /\ i = 1) THEN st ELSE EndPhase(st, p)
   /\ IF p = 5 THEN done' = TRUE /\ p' = p /\ i' = i
               ELSE done' = FALSE /\ p' = p + 1 /\ i' = 1
   /\ lastBranch' = "phaseEnd"
@@ -128,8 +130,11 @@ NoLeakAcrossPhases ==
                         /\ (p >= 3 => st.allow # "request"))
 
 \* in DetectionOnly no interruption is ever recorded; allow is never set (C02, C08)
+SwitchesEngine(sc) ==
+  \E ri \in 1..Len(sc.rules) : \E li \in 1..Len(sc.rules[ri].links) : \E ai \in 1..Len(sc.rules[ri].links[li].acts) :
+    sc.rules[ri].links[li].acts[ai].a = "ctl" /\ sc.rules[ri].links[li].acts[ai].s = "ruleEngine"
 DetectionOnlySilent ==
-  scen.engine = "DetectionOnly" => (st.intr = None /\ st.allow = "unset")
+  (scen.engine = "DetectionOnly" /\ ~SwitchesEngine(scen)) => (st.intr = None /\ st.allow = "unset")
 
 \* rules fire in configuration order within a phase and each at most once per phase (C01)
 RuleIdx(id) == CHOOSE j \in 1..Len(Rules) : Rules[j].id = id
